@@ -60,11 +60,17 @@ pub fn selftest_quick() -> Result<(), String> {
         }
     }
     // every other literal used as a root by a check
-    let literals: Vec<&str> = hist::PERPETUAL.iter().copied().chain(hist::MATE_ROOTS.iter().copied()).chain(c14::POSITIONS.iter().filter_map(|p| p.strip_prefix("fen "))).collect();
+    let literals: Vec<&str> = hist::PERPETUAL.iter().copied().chain(hist::MATE_ROOTS.iter().copied()).chain(c14::POSITIONS.iter().filter_map(|p| p.strip_prefix("fen "))).chain(c14::DEAD.iter().filter_map(|p| p.strip_prefix("fen "))).collect();
     for f in literals {
         let p = Pos::from_fen(f).map_err(|e| format!("literal unreadable: {} ({})", f, e))?;
         if !p.sane() {
             return Err(format!("literal not sane: {}", f));
+        }
+    }
+    for f in c14::DEAD {
+        let p = Pos::from_fen(f.strip_prefix("fen ").ok_or("C14 dead root must be given as a FEN")?)?;
+        if !p.legal().is_empty() {
+            return Err(format!("C14 dead root has legal moves: {}", f));
         }
     }
     for f in hist::MATE_ROOTS {
